@@ -52,6 +52,10 @@ ConvEv(e) ==
               (e.obs.res.k = "bool" /\ e.obs.res.v = (e.text = <<"t", "r", "u", "e">>)))
   /\ Check(tid, l, "P.conv.float_roundtrip", "",
            (e.type = "float" /\ e.hasF) => (e.obs.res.k = "float" /\ e.obs.res.num = e.fnum /\ e.obs.res.den = e.fden))
+  \* the text forms of the floats that are no rationals: repr(float("inf")) = "inf", "-inf", "nan"
+  /\ Check(tid, l, "P.conv.float_special", "",
+           (e.type = "float" /\ ~e.isNone /\ e.text \in {<<"i", "n", "f">>, <<"-", "i", "n", "f">>, <<"n", "a", "n">>}) =>
+              (e.obs.res.k = "float" /\ e.obs.res.special = e.text))
   /\ Note(tid, l, "A.conv", e.type = "float" \/ e.hasF \/
            LET m == Conv(e.type, e.nullable, e.isNone, e.text) IN
              /\ m.k = e.obs.res.k
